@@ -223,6 +223,14 @@ func genC06(r *rng, tier string) *Case {
 		case len(cands) > 0:
 			p.Stages[pick(r, cands...)].Deep = d
 		}
+		// every call of such a closure costs thousands of yields, and sorting calls its key closure
+		// n log n times: keep the list short enough for the yield budget of a legitimate run
+		if p.N > 300 {
+			p.N = pick(r, 30, 100, 300)
+		}
+		if p.Term.Deep > 60 && (p.Term.Op == "order" || p.Term.Op == "orderLess") {
+			p.Term.Deep = 60
+		}
 	}
 	// wrappers
 	var costStages []int
